@@ -1,6 +1,12 @@
 import BU.Properties.C16
+import BU.Properties.C16_Gen
 #print axioms C16.toBytes_shape'
 #print axioms C16.toBytes_shape
 #print axioms C16.size_eq
 #print axioms C16.vsize_eq
 #print axioms C16.vsize_legacy
+#print axioms C16Gen.gen_get_size
+#print axioms C16Gen.ceil_quarter
+#print axioms C16Gen.size_ge
+#print axioms C16Gen.gen_get_vsize
+#print axioms C16Gen.gen_vsize_bip141
